@@ -131,6 +131,18 @@ def gen_op(tp, st, inner=False):
     if r < 72 and st['buf']:
         b = tp.choice(st['buf'])
         k = tp.draw(6)
+        if isinstance(b, str) and k >= 4 and not inner:
+            # a group of consecutive buffers is freed as a group: every
+            # member, one after the other, in some order
+            bid = b.split('.')[0]
+            members = [x for x in st['buf']
+                       if isinstance(x, str) and x.split('.')[0] == bid]
+            st['buf'] = [x for x in st['buf'] if x not in members]
+            order = list(range(len(members)))
+            for i in range(len(order) - 1, 0, -1):
+                j = tp.draw(i + 1)
+                order[i], order[j] = order[j], order[i]
+            return ['bfreegroup', int(bid), order]
         if k == 0:
             return ['bzero', b, gen_completion(tp)]
         if k == 1:
@@ -671,6 +683,13 @@ def run_world(case, tape, ctx, w):
                 exp.append(('m', ['/b_alloc', b.bufnum, frames, ch, 0]))
             bump('consecutive-buffers')
             return exp
+        if kind == 'bfreegroup':
+            out = []
+            for i in op[2]:
+                if f'{op[1]}.{i}' in real:
+                    out.extend(perform(['bfree', f'{op[1]}.{i}', None]))
+            bump('consecutive-buffers-freed-as-a-group')
+            return out
         if kind in ('bzero', 'bset', 'bsetn', 'bfill', 'bfree'):
             b = real.get(op[1])
             if b is None:
